@@ -76,7 +76,7 @@ func runC06(r *Run) {
 		r.FailEdge(fn, "getSignedLogRoot", EdgeSpec{Name: "backend-error", Atom: nilAtom("iface(trillian.TrillianLogClient).GetLatestSignedLogRoot(*)#1"), Bad: "non", Want: wantErr(true)})
 		r.FailEdge(fn, "getSignedLogRoot", EdgeSpec{Name: "root-absent", Atom: nilAtom("iface(trillian.TrillianLogClient).GetLatestSignedLogRoot(*)#0.SignedLogRoot"), Bad: "nil", Want: wantErr(true)})
 		r.FailEdge(fn, "getSignedLogRoot", EdgeSpec{Name: "root-garbled", Atom: nilAtom("(*types.LogRootV1).UnmarshalBinary(*)"), Bad: "non", Want: wantErr(true)})
-		r.FailEdge(fn, "getSignedLogRoot", EdgeSpec{Name: "hash-size", Atom: ordAtomR("len(new:types.LogRootV1#0.RootHash)", "32"), Bad: "<,>", Want: wantErr(true)})
+		r.FailEdge(fn, "getSignedLogRoot", EdgeSpec{Name: "hash-size", Atom: ordAtomR("len("+decodedRoot(r, fn)+".RootHash)", "32"), Bad: "<,>", Want: wantErr(true)})
 		for _, ret := range Returns(fn) {
 			if errKind(ret.Results[1]) == "nil" {
 				a := baseAlloc(ret.Results[0])
